@@ -616,6 +616,7 @@ func runC03(c *Ctx) {
 			return ok
 		}
 		c.fullRange(fn, h, "the loop over one served list", isList, 0, errSuccess, discarded)
+		c.everyServedCheckpointChecked()
 		// height argument = (i+1) * interval
 		lf := loopFormOf(h)
 		okH := false
@@ -704,6 +705,39 @@ func runC03(c *Ctx) {
 	})
 
 	c.rule("C03.V5", everyPositionComparedDoc, func() { c.everyPositionCompared() })
+
+	c.rule("C03.G6", "a checkpoint list is used only when every peer still listened to agrees with it: resolveConflict returns a list only behind checkCFCheckptSanity = -1 (full agreement) of a call that was given the whole remaining checkpoints map (its own parameter, from which the liars found so far were deleted) - a list that is merely consistent with the store on its own may be any liar's whose first false entry lies outside the interval just examined", func() {
+		fn := c.fn(fnResolve)
+		sanity := c.funcObj("neutrino", "checkCFCheckptSanity")
+		var whole []ssa.Instruction
+		for _, in := range find(fn, callTo(sanity)) {
+			a := argsOf(in)
+			if len(a) >= 1 && ir.Strip(a[0]) == ssa.Value(fn.Params[1]) {
+				whole = append(whole, in)
+			}
+		}
+		var rets []ssa.Instruction
+		for _, in := range find(fn, isExit) {
+			r, ok := in.(*ssa.Return)
+			if ok && !ir.IsNil(ir.Strip(ir.RetVal(r, 0))) {
+				rets = append(rets, in)
+			}
+		}
+		var cmps []ssa.Instruction
+		for _, w := range whole {
+			for _, res := range ir.Result(w.(ssa.Value), 0) {
+				for _, r := range ir.Refs(res) {
+					if b, ok := r.(*ssa.BinOp); ok && (b.Op == token.EQL || b.Op == token.NEQ) {
+						if k, isC := ir.ConstInt(b.Y); isC && k == -1 {
+							cmps = append(cmps, r)
+						}
+					}
+				}
+			}
+		}
+		g := equalIs("checkCFCheckptSanity(checkpoints, store) vs -1", cmps, true)
+		c.guarded(fn, g, 1, "return a checkpoint list", rets, 1, gDominate)
+	})
 
 	c.rule("C03.W1", "only the tabled functions write or roll back the filter-header store", func() {
 		c.whoMay("FilterHeaderStore.{WriteHeaders,RollbackLastBlock}", callTo(fhs("WriteHeaders"), fhs("RollbackLastBlock")), []string{
@@ -902,3 +936,30 @@ func (c *Ctx) everyPositionCompared() {
 			c.verdict(len(bad) == 0, construct, c.at(call), "for i := 0; i < numHeaders; i++ { checkForCFHeaderMismatch(headers, i) .. } with headers, numHeaders from one getCFHeadersForAllPeers call", join(bad), c.at(lf.test))
 		}
 	}
+
+const everyServedCheckpointCheckedDoc = "a peer serving a filter checkpoint that contradicts a built-in one is banned wherever the client's own filter headers stand: in resolveConflict every entry of every served list reaches chainsync.ValidateCFHeader (no entry is skipped on account of its height or of what the store already holds; the later comparison with the store finds a mismatch but bans nobody)"
+
+// everyServedCheckpointChecked: see everyServedCheckpointCheckedDoc (part of
+// C03.O5, also C13.V2).
+func (c *Ctx) everyServedCheckpointChecked() {
+	fn := c.fn(fnResolve)
+	vcf := c.funcObj("chainsync", "ValidateCFHeader")
+	calls := find(fn, callTo(vcf))
+	if len(calls) != 1 {
+		c.fail(c.nm(fn)+" | every served checkpoint reaches ValidateCFHeader", c.P.Pos(fn.Pos()), fmt.Sprintf("%d ValidateCFHeader call(s), 1 tabled", len(calls)))
+		return
+	}
+	h := ir.LoopHeaderOf(calls[0].Block())
+	if h == nil {
+		c.fail(c.nm(fn)+" | every served checkpoint reaches ValidateCFHeader", c.at(calls[0]), "ValidateCFHeader is not called in a loop over the served entries")
+		return
+	}
+	in := ir.LoopBlocks(h)
+	var starts []start
+	for i, sc := range h.Succs {
+		if in[sc] {
+			starts = append(starts, atEdge(c, ir.Edge{From: h, Succ: i}, "next served checkpoint"))
+		}
+	}
+	c.mustFollowIter(fn, "each served checkpoint", starts, func(x ssa.Instruction) bool { return x == calls[0] }, "chainsync.ValidateCFHeader", nil, 1)
+}
